@@ -254,7 +254,9 @@ def c06(g, tier):
     yield from midsize_sessions(g, "C06/mid", ["sdes", "nack", "fir", "firbig", "sizes"], quick=("c06" if tier == "quick" else False))
     yield from type0_sessions(g, "C06/type0")
     yield from nack_sibling_sessions(g, 80 if tier == "quick" else 2000, "C06/sib")
-    yield from nack_tiny_universe_sessions(g, 6 if tier == "quick" else 100, "C06/tiny")
+    yield from nack_tiny_universe_sessions(g, 10 if tier == "quick" else 100, "C06/tiny")
+    for sess in c14_big(g):
+        yield [o for o in sess if o["op"] not in ("cparse", "cnext")] + [{"op": "write_into", "rel": 5, "len": 64, "fill": 1}]
     # standalone SDES item / chunk writers
     for i in range(300 if tier == "quick" else 5000):
         bad = g.r.random() < 0.1
@@ -475,12 +477,32 @@ def nack_sibling_sessions(g, n, sidp):
     r = g.r
     for i in range(n):
         big = r.random() < 0.3
-        k = (r.randrange(1030, 1100) if r.random() < 0.2 else r.randrange(64, 90)) if big else r.randrange(4, 9)
+        k = (r.randrange(1030, 1100) if r.random() < 0.2 else r.randrange(64, 90)) if big else r.choice([2, 2, 3, 4, 5, 6, 7, 8])
         base = sorted(r.sample(range(1, 40000 if k > 1000 else 4000 if big else 400), k))
         a = list(base)
         b = list(base)
-        x, y = r.sample(range(1, k - 1), 2) if k > 3 else (1, 2)
-        if r.random() < 0.5:
+        x, y = r.sample(range(1, k - 1), 2) if k > 3 else (0, 1)
+        mode = r.random()
+        if mode < 0.3 and not big:
+            a = r.sample(range(0, 60), k)   # insertion order matters for running hashes h = h * m + x
+            b = list(a)
+            j = r.randrange(0, k - 1)
+            m = r.choice([31, 31, 33, 17])
+            b[j] += 1
+            b[j + 1] -= m
+            if b[j + 1] < 0 or len(set(b)) != k:
+                continue
+            off = r.choice([0, 1000])
+            ops = [reset(f"{sidp}/poly/{i}")]
+            for adds in (a, b, a):
+                calls = [{"c": "new", "fci": {"f": "nack", "adds": [(off + v) % 65536 for v in adds]}, "owned": r.random() < 0.5}]
+                ops += calls_to_ops("tfb", calls) + [{"op": "calc_size"}, {"op": "write_into", "rel": 0, "len": 64, "fill": 0},
+                                                     {"op": "parse", "kind": "tfb", "src": "image"}]
+            yield ops
+            continue
+        if k < 4:
+            continue
+        if mode < 0.65:
             d = r.randrange(1, 8)
             b[x] += d
             b[y] -= d                       # same sum
